@@ -187,7 +187,7 @@ def _replay_logo(n, L):
 
 
 # ---------------------------------------------------------------- rankfrequency
-def _body_rank(n, nx, ny, sx, sy):
+def _body_rank(n, nx, ny, sx, sy, dtype=None):
     def body():
         import math
         from pyrepseq import plotting
@@ -196,13 +196,19 @@ def _body_rank(n, nx, ny, sx, sy):
         from vlib import sym, symops as so
         vals, data = [], []
         for i in range(n):
-            v = sym.sym_int(f"v{i}", 1, 4)
-            missing = bool(sym.sym_bool(f"m{i}"))
+            v = sym.sym_int(f"v{i}", 0 if dtype else 1, 4)
+            missing = bool(sym.sym_bool(f"m{i}")) if not dtype else False
             data.append(float("nan") if missing else v)
             if not missing:
                 vals.append(v)
         if not vals:
             return True
+        if dtype:       # counts held in a typed integer array (zeros allowed): the order drawn must not depend on the dtype
+            if nx:
+                sym.assume(so.gt(so.total(vals), 0))        # frequencies need a positive total
+            import numpy as _rnp
+            from models import np_model
+            data = np_model.array(list(vals), dtype=_rnp.dtype(dtype))
         plot_model.reset()
         scalex, scaley = (2.0 if sx else 1.0), (3.0 if sy else 1.0)
         plotting.rankfrequency(data, ax=Recorder("ax"), normalize_x=nx, normalize_y=ny, scalex=scalex, scaley=scaley, log_x=False, log_y=True)
@@ -235,7 +241,7 @@ def _body_rank(n, nx, ny, sx, sy):
     return body
 
 
-def _replay_rank(n, nx, ny, sx, sy):
+def _replay_rank(n, nx, ny, sx, sy, dtype=None):
     def replay(inputs):
         import matplotlib
         matplotlib.use("Agg")
@@ -246,6 +252,10 @@ def _replay_rank(n, nx, ny, sx, sy):
         vals = sorted([v for v in data if v == v], reverse=True)
         if not vals:
             return True, ""
+        if dtype:
+            if nx and sum(vals) == 0:
+                return True, "all counts zero: frequencies undefined"
+            data = np.array([int(v) for v in data], dtype=dtype)
         fig, ax = plt.subplots()
         scalex, scaley = (2.0 if sx else 1.0), (3.0 if sy else 1.0)
         lines = plotting.rankfrequency(data, ax=ax, normalize_x=nx, normalize_y=ny, scalex=scalex, scaley=scaley, log_x=False, log_y=True)
@@ -455,6 +465,9 @@ def conditions(tier):
             out.append(Condition(f"C19/rankfrequency/n={n}/nx={int(nx)}ny={int(ny)}sx={int(sx)}sy={int(sy)}", _body_rank(n, nx, ny, sx, sy),
                                  _replay_rank(n, nx, ny, sx, sy), budget=600 if not T else 3000, models=M,
                                  bounds=f"{n} symbolic counts with symbolic missing positions"))
+    for dt, nx in [("uint8", False), ("uint16", True), ("int64", False)]:
+        out.append(Condition(f"C19/rankfrequency/n=3/{dt}-array/nx={int(nx)}", _body_rank(3, nx, False, False, False, dt), _replay_rank(3, nx, False, False, False, dt),
+                             budget=600, models=M, bounds=f"3 symbolic counts 0..4 (zeros allowed) in a {dt} array, normalize_x={nx}"))
     for fn in ("labels_to_colors_hls", "labels_to_colors_tableau"):
         for n in (3,) + ((4,) if T else ()):
             out.append(Condition(f"C19/{fn}/n={n}", _body_colors(fn, n), _replay_colors(fn, n), budget=900 if not T else 3000, models=M,
